@@ -64,7 +64,7 @@ def min_partition(spec, desc):
             return 0.0
         if rem in memo:
             return memo[rem]
-        first = min(rem)
+        first = min(rem, key=lambda x: (x[0], x[1][0], x[1][1], x[1][2] is not None, x[1][2] or ''))
         b = float("inf")
         for cov, c in items:
             if first in cov and cov <= rem:
@@ -85,7 +85,7 @@ def min_cover(spec, desc):
             return 0.0
         if rem in memo:
             return memo[rem]
-        first = min(rem)
+        first = min(rem, key=lambda x: (x[0], x[1][0], x[1][1], x[1][2] is not None, x[1][2] or ''))
         b = float("inf")
         for cov, c in items:
             if first in cov:
